@@ -341,11 +341,16 @@ impl Effect<LocalStorage> {
                             );
 
                             if immediate || !first_run {
-                                let new_watch_value = handler(
-                                    &new_dep_value,
-                                    old_dep_value.as_ref(),
-                                    old_watch_value,
-                                );
+                                // the handler is part of the effect: what it allocates or
+                                // registers with `on_cleanup` belongs to the effect's owner
+                                // (released by the next run's `with_cleanup` and on disposal)
+                                let new_watch_value = owner.with(|| {
+                                    handler(
+                                        &new_dep_value,
+                                        old_dep_value.as_ref(),
+                                        old_watch_value,
+                                    )
+                                });
 
                                 *watch_value.write().or_poisoned() =
                                     Some(new_watch_value);
@@ -479,11 +484,16 @@ impl Effect<SyncStorage> {
                             );
 
                             if immediate || !first_run {
-                                let new_watch_value = handler(
-                                    &new_dep_value,
-                                    old_dep_value.as_ref(),
-                                    old_watch_value,
-                                );
+                                // the handler is part of the effect: what it allocates or
+                                // registers with `on_cleanup` belongs to the effect's owner
+                                // (released by the next run's `with_cleanup` and on disposal)
+                                let new_watch_value = owner.with(|| {
+                                    handler(
+                                        &new_dep_value,
+                                        old_dep_value.as_ref(),
+                                        old_watch_value,
+                                    )
+                                });
 
                                 *watch_value.write().or_poisoned() =
                                     Some(new_watch_value);
